@@ -208,7 +208,7 @@ Section Sound.
   Theorem bid_digest_binding b1 b2 d :
     int64_fields b1 -> int64_fields b2 ->
     bid_hash K b1 = Ok d -> bid_hash K b2 = Ok d ->
-    same_bid_fields b1 b2 \/ collision K.
+    same_bid_fields b1 b2 \/ collision_among K (bid_preimage_pairs K b1 b2).
   Proof.
     intros (I1 & I2 & I3) (I4 & I5 & I6) H1 H2.
     destruct (bid_hash_ok_parses b1 d H1) as [A1 P1].
@@ -224,13 +224,24 @@ Section Sound.
     int64_fields b1 -> int64_fields b2 ->
     verify_bid K cr b1 = Ok a1 -> verify_bid K cr b2 = Ok a2 ->
     b_dig b1 = b_dig b2 ->
-    same_bid_fields b1 b2 \/ collision K.
+    same_bid_fields b1 b2 \/ collision_among K (bid_preimage_pairs K b1 b2).
   Proof.
     intros I1 I2 V1 V2 E.
     apply verify_bid_sound in V1. destruct V1 as (d1 & s1 & D1 & _ & H1 & _).
     apply verify_bid_sound in V2. destruct V2 as (d2 & s2 & D2 & _ & H2 & _).
     rewrite D1, D2 in E. injection E as <-.
     exact (bid_digest_binding b1 b2 d1 I1 I2 H1 H2).
+  Qed.
+
+  (* the anonymous form (implied; NOT informative at a real hash, see Eip712_proofs) *)
+  Corollary verify_bid_binding_anon b1 b2 a1 a2 :
+    int64_fields b1 -> int64_fields b2 ->
+    verify_bid K cr b1 = Ok a1 -> verify_bid K cr b2 = Ok a2 ->
+    b_dig b1 = b_dig b2 ->
+    same_bid_fields b1 b2 \/ collision K.
+  Proof.
+    intros I1 I2 V1 V2 E. destruct (verify_bid_binding b1 b2 a1 a2 I1 I2 V1 V2 E) as [H|C];
+      [left; exact H|right; exact (collision_among_collision K _ C)].
   Qed.
 
   (* a verifying bid presents the digest of exactly its own fields: the digest cannot be
@@ -265,7 +276,7 @@ Section Sound.
       commitment_hash K c1 = Ok d -> commitment_hash K c2 = Ok d ->
       (same_bid_fields b1 b2 /\ obytes (b_dig b1) = obytes (b_dig b2) /\
        obytes (b_sig b1) = obytes (b_sig b2))
-      \/ collision K.
+      \/ collision_among K (commitment_preimage_pairs K b1 b2).
     Proof.
       intros B1 B2 (I1 & I2 & I3) (I4 & I5 & I6) (W1 & W2) (W3 & W4) H1 H2.
       destruct (commitment_hash_ok_parses c1 d H1) as (b1' & A1 & B1' & P1).
@@ -284,13 +295,26 @@ Section Sound.
       c_dig c1 = c_dig c2 ->
       (same_bid_fields b1 b2 /\ obytes (b_dig b1) = obytes (b_dig b2) /\
        obytes (b_sig b1) = obytes (b_sig b2))
-      \/ collision K.
+      \/ collision_among K (commitment_preimage_pairs K b1 b2).
     Proof.
       intros B1 B2 I1 I2 W1 W2 V1 V2 E.
       apply verify_preconf_sound in V1. destruct V1 as (b1' & d1 & s1 & _ & D1 & _ & _ & H1 & _).
       apply verify_preconf_sound in V2. destruct V2 as (b2' & d2 & s2 & _ & D2 & _ & _ & H2 & _).
       rewrite D1, D2 in E. injection E as <-.
       exact (commitment_digest_binding c1 c2 b1 b2 d1 B1 B2 I1 I2 W1 W2 H1 H2).
+    Qed.
+    Corollary verify_preconf_binding_anon c1 c2 b1 b2 a1 a2 :
+      c_bid c1 = Some b1 -> c_bid c2 = Some b2 ->
+      int64_fields b1 -> int64_fields b2 -> wf_bid b1 -> wf_bid b2 ->
+      verify_preconf K cr c1 = Ok a1 -> verify_preconf K cr c2 = Ok a2 ->
+      c_dig c1 = c_dig c2 ->
+      (same_bid_fields b1 b2 /\ obytes (b_dig b1) = obytes (b_dig b2) /\
+       obytes (b_sig b1) = obytes (b_sig b2))
+      \/ collision K.
+    Proof.
+      intros B1 B2 I1 I2 W1 W2 V1 V2 E.
+      destruct (verify_preconf_binding c1 c2 b1 b2 a1 a2 B1 B2 I1 I2 W1 W2 V1 V2 E) as [H|C];
+        [left; exact H|right; exact (collision_among_collision K _ C)].
     Qed.
   End FixedLength.
 
@@ -321,7 +345,9 @@ Section Sound.
   Theorem construct_bid_shape tx amt bn ds de b :
     signer_shape -> construct_bid K cr tx amt bn ds de = Ok b ->
     b_tx b = tx /\ b_amt b = amt /\ b_bn b = bn /\ b_ds b = ds /\ b_de b = de /\
-    exists d sig, b_dig b = Some d /\ bid_hash K b = Ok d /\ b_sig b = Some sig /\ shape_2728 sig.
+    exists d sig sg, b_dig b = Some d /\ bid_hash K b = Ok d /\ b_sig b = Some sig /\
+      sign_normalised cr d = Ok sig /\ sign cr d = Ok sg /\ firstn 64 sig = firstn 64 sg /\
+      shape_2728 sig.
   Proof.
     intros SH H. unfold construct_bid in H.
     destruct (_ || _ || _); [discriminate|].
@@ -330,16 +356,18 @@ Section Sound.
     destruct (bid_hash K b0) as [d| |] eqn:Hh; try discriminate.
     destruct (sign_normalised cr d) as [sig| |] eqn:Hs; try discriminate.
     injection H as <-. cbn [b_tx b_amt b_bn b_ds b_de b_dig b_sig].
-    repeat split. exists d, sig. repeat split; try reflexivity.
-    - exact Hh.
-    - apply (sign_normalised_shape d sig SH Hs).
-    - apply (sign_normalised_shape d sig SH Hs).
+    do 5 (split; [reflexivity|]).
+    destruct (sign_normalised_shape d sig SH Hs) as (Hshape & sg & Hsg & Hrs).
+    exists d, sig, sg. split; [reflexivity|]. split; [exact Hh|]. split; [reflexivity|].
+    split; [exact Hs|]. split; [exact Hsg|]. split; [exact Hrs|exact Hshape].
   Qed.
 
   Theorem construct_preconf_shape ob c :
     signer_shape -> construct_preconf K cr ob = Ok c ->
-    exists b d sig, ob = Some b /\ c_bid c = Some b /\ c_dig c = Some d /\
-      commitment_hash K c = Ok d /\ c_sig c = Some sig /\ shape_2728 sig.
+    exists b d sig sg, ob = Some b /\ c_bid c = Some b /\ c_dig c = Some d /\
+      commitment_hash K c = Ok d /\ c_sig c = Some sig /\
+      sign_normalised cr d = Ok sig /\ sign cr d = Ok sg /\ firstn 64 sig = firstn 64 sg /\
+      shape_2728 sig.
   Proof.
     intros SH H. unfold construct_preconf in H.
     destruct ob as [b|]; [|discriminate].
@@ -348,10 +376,51 @@ Section Sound.
     destruct (commitment_hash K c0) as [d| |] eqn:Hh; try discriminate.
     destruct (sign_normalised cr d) as [sig| |] eqn:Hs; try discriminate.
     injection H as <-. cbn [c_bid c_dig c_sig].
-    exists b, d, sig. repeat split; try reflexivity.
-    - exact Hh.
-    - apply (sign_normalised_shape d sig SH Hs).
-    - apply (sign_normalised_shape d sig SH Hs).
+    destruct (sign_normalised_shape d sig SH Hs) as (Hshape & sg & Hsg & Hrs).
+    exists b, d, sig, sg. split; [reflexivity|]. split; [reflexivity|]. split; [reflexivity|].
+    split; [exact Hh|]. split; [reflexivity|].
+    split; [exact Hs|]. split; [exact Hsg|]. split; [exact Hrs|exact Hshape].
+  Qed.
+
+  (* the property sentence in one statement: for a bid in the uint64 domain the node stores,
+     and hands to its key signer, exactly the EIP-712 hash of the typed-data message *)
+  Theorem construct_bid_signs_eip712 tx amt bn ds de b A :
+    signer_shape -> construct_bid K cr tx amt bn ds de = Ok b ->
+    parse_amount amt = Some A -> u64 A -> u63 bn -> u63 ds -> u63 de ->
+    let d := eip712_bid K tx (Z.to_N A) (Z.to_N bn) (Z.to_N ds) (Z.to_N de) in
+    b_dig b = Some d /\
+    exists sig sg, b_sig b = Some sig /\ sign cr d = Ok sg /\ sign_normalised cr d = Ok sig /\
+      firstn 64 sig = firstn 64 sg /\ shape_2728 sig.
+  Proof.
+    intros SH H P HA Hbn Hds Hde d.
+    destruct (construct_bid_shape tx amt bn ds de b SH H)
+      as (E1 & E2 & E3 & E4 & E5 & d' & sig & sg & Hd & Hh & Hs & Hn & Hsg & Hrs & Hshape).
+    assert (d' = d) as ->.
+    { destruct (bid_hash_is_eip712 K b A) as [Hb _];
+        try (rewrite ?E2, ?E3, ?E4, ?E5; assumption).
+      rewrite Hb in Hh. rewrite E1, E3, E4, E5 in Hh. injection Hh as <-. reflexivity. }
+    split; [exact Hd|]. exists sig, sg.
+    split; [exact Hs|]. split; [exact Hsg|]. split; [exact Hn|]. split; [exact Hrs|exact Hshape].
+  Qed.
+
+  Theorem construct_preconf_signs_eip712 b c A :
+    signer_shape -> construct_preconf K cr (Some b) = Ok c ->
+    parse_amount (b_amt b) = Some A -> u64 A -> u63 (b_bn b) -> u63 (b_ds b) -> u63 (b_de b) ->
+    let d := eip712_commitment K (b_tx b) (Z.to_N A) (Z.to_N (b_bn b)) (Z.to_N (b_ds b)) (Z.to_N (b_de b))
+                               (obytes (b_dig b)) (obytes (b_sig b)) in
+    c_bid c = Some b /\ c_dig c = Some d /\
+    exists sig sg, c_sig c = Some sig /\ sign cr d = Ok sg /\ sign_normalised cr d = Ok sig /\
+      firstn 64 sig = firstn 64 sg /\ shape_2728 sig.
+  Proof.
+    intros SH H P HA Hbn Hds Hde d.
+    destruct (construct_preconf_shape (Some b) c SH H)
+      as (b' & d' & sig & sg & Eb & Hb & Hd & Hh & Hs & Hn & Hsg & Hrs & Hshape).
+    injection Eb as <-.
+    assert (d' = d) as ->.
+    { destruct (commitment_hash_is_eip712 K c b A Hb P HA Hbn Hds Hde) as [Hc _].
+      rewrite Hc in Hh. injection Hh as <-. reflexivity. }
+    split; [exact Hb|]. split; [exact Hd|]. exists sig, sg.
+    split; [exact Hs|]. split; [exact Hsg|]. split; [exact Hn|]. split; [exact Hrs|exact Hshape].
   Qed.
 
   (* --- round trip of the node's own messages ------------------------------------------------ *)
@@ -669,4 +738,437 @@ Proof.
   split.
   - apply (flip_bit_changes_key 7 prime_7 eq_refl 3 5 2 4 6 eq_refl); lia.
   - apply (malleated_same_key 7 prime_7 eq_refl 5 2 4 6).
+Qed.
+
+(* two more perturbations in the same abstract group: another digest (as a scalar modulo n), or
+   another s, with everything else kept, recovers another key *)
+Lemma digest_changes_key n (Hp : prime n) (Ho : (n mod 2 = 1)%Z) r rinv z1 z2 s k :
+  ((r * rinv) mod n = 1)%Z ->
+  recovered n rinv z1 s k = recovered n rinv z2 s k -> (z1 mod n = z2 mod n)%Z.
+Proof.
+  intros Hr H. pose proof (n_gt_2 n Hp Ho) as G.
+  pose proof (recovered_times_r n Hp Ho r rinv z1 Hr s k) as E1.
+  pose proof (recovered_times_r n Hp Ho r rinv z2 Hr s k) as E2.
+  rewrite H in E1. rewrite E1 in E2.
+  assert (D : ((z1 - z2) mod n = 0)%Z).
+  { replace (z1 - z2)%Z with ((s * k - z2) - (s * k - z1))%Z by ring.
+    rewrite Zminus_mod, E2, Z.sub_diag. apply Z.mod_0_l. lia. }
+  apply Z.mod_divide in D; [|lia]. destruct D as [q Hq].
+  replace z1 with (z2 + q * n)%Z by lia. apply Z.mod_add. lia.
+Qed.
+
+Lemma s_changes_key n (Hp : prime n) (Ho : (n mod 2 = 1)%Z) r rinv z s1 s2 k :
+  ((r * rinv) mod n = 1)%Z -> (0 < k < n)%Z ->
+  recovered n rinv z s1 k = recovered n rinv z s2 k -> (s1 mod n = s2 mod n)%Z.
+Proof.
+  intros Hr Hk H. pose proof (n_gt_2 n Hp Ho) as G.
+  pose proof (recovered_eq_inv n Hp Ho r rinv z Hr s1 k s2 k H) as D.
+  replace (s1 * k - s2 * k)%Z with ((s1 - s2) * k)%Z in D by ring.
+  apply prime_mult in D; [|exact Hp]. destruct D as [D|D].
+  - destruct D as [q Hq]. replace s1 with (s2 + q * n)%Z by lia. apply Z.mod_add. lia.
+  - exfalso. exact (not_div_small n k Hk D).
+Qed.
+
+(* ------------------------------------------------------------------------------------------- *)
+(* Spelling aliases (the documented reading of "field value"): these changes of BYTES of a
+   valid message are NOT changes of a signed value and verify to the same address. *)
+Definition with_amt (b : bid) (amt : bytes) : bid :=
+  {| b_tx := b_tx b; b_amt := amt; b_bn := b_bn b; b_ds := b_ds b; b_de := b_de b;
+     b_dig := b_dig b; b_sig := b_sig b |}.
+Definition with_sig (b : bid) (s : bytes) : bid :=
+  {| b_tx := b_tx b; b_amt := b_amt b; b_bn := b_bn b; b_ds := b_ds b; b_de := b_de b;
+     b_dig := b_dig b; b_sig := Some s |}.
+
+Section Aliases.
+  Variable K : bytes -> bytes.
+  Variable cr : crypto.
+
+  (* any two spellings of one integer ("5", "05", "+5"; "0", "-0") *)
+  Theorem amount_spelling_alias b amt' :
+    parse_amount amt' = parse_amount (b_amt b) ->
+    verify_bid K cr (with_amt b amt') = verify_bid K cr b.
+  Proof.
+    intros P. unfold verify_bid, verify_bid_with. cbn [b_dig b_sig with_amt].
+    assert (E : bid_hash K (with_amt b amt') = bid_hash K b).
+    { unfold bid_hash. cbn [b_amt with_amt]. rewrite P. reflexivity. }
+    rewrite E. reflexivity.
+  Qed.
+
+  (* the recovery byte: 27 and 0 are one bit, 28 and 1 are one bit *)
+  Theorem v_spelling_alias b rs v :
+    length rs = 64%nat -> (v = 0 \/ v = 1) ->
+    verify_bid K cr (with_sig b (rs ++ [v + 27])) = verify_bid K cr (with_sig b (rs ++ [v])).
+  Proof.
+    intros L Hv. unfold verify_bid, verify_bid_with. cbn [b_dig b_sig with_sig].
+    destruct (b_dig b) as [d|]; [|reflexivity].
+    change (bid_hash K (with_sig b (rs ++ [v + 27]))) with (bid_hash K b).
+    change (bid_hash K (with_sig b (rs ++ [v]))) with (bid_hash K b).
+    destruct (bid_hash K b) as [h| |]; try reflexivity.
+    unfold eip_verify. destruct (bytes_eqb h d); cbn [negb]; [|reflexivity].
+    rewrite !app_length, L. cbn [length Nat.add Nat.eqb negb].
+    unfold eip_verify_core. rewrite !(nth_error_64_app rs [] _ L), !(set64_split rs [] _ _ L).
+    assert (E : v_to01 (v + 27) = v_to01 v) by (destruct Hv as [-> | ->]; reflexivity).
+    rewrite E. reflexivity.
+  Qed.
+End Aliases.
+
+Example amount_alias_instance (K : bytes -> bytes) (cr : crypto) (d s : bytes) :
+  bos "5" <> bos "05" /\ bos "5" <> bos "+5" /\
+  verify_bid K cr (with_amt (with_ds refute_b1 d s) (bos "05")) = verify_bid K cr (with_ds refute_b1 d s) /\
+  verify_bid K cr (with_amt (with_ds refute_b1 d s) (bos "+5")) = verify_bid K cr (with_ds refute_b1 d s).
+Proof.
+  split; [vm_compute; discriminate|]. split; [vm_compute; discriminate|].
+  split; apply amount_spelling_alias; reflexivity.
+Qed.
+
+(* ------------------------------------------------------------------------------------------- *)
+(* Signature and digest perturbations at the level of verify_bid, for ANY crypto record obeying
+   three laws (proved below for the crypto record of the abstract group). *)
+Section SigLaws.
+  Variable K : bytes -> bytes.
+  Variable cr : crypto.
+  Variable neg_s : bytes -> bytes.          (* r||s  |->  r||(n-s) *)
+  Variable zn : bytes -> Z.                 (* a digest as a scalar of the group *)
+
+  Hypothesis law_flip : forall h rs pk pk', length rs = 64%nat ->
+    recover cr h (rs ++ [0]) = Ok pk -> recover cr h (rs ++ [1]) = Ok pk' -> pk <> pk'.
+  Hypothesis law_low_s : forall pk pk' h rs, length rs = 64%nat ->
+    verify_rs cr pk h rs = true -> verify_rs cr pk' h (neg_s rs) = false.
+  Hypothesis law_digest : forall d d' sig pk pk', zn d <> zn d' ->
+    recover cr d sig = Ok pk -> recover cr d' sig = Ok pk' -> pk <> pk'.
+  (* outside the proofs (truncated hash of the key): distinct keys have distinct addresses *)
+  Hypothesis addr_inj : forall p q, addr_of cr p = addr_of cr q -> p = q.
+
+  Lemma sig_valid_split h sig a :
+    sig_valid cr h sig a -> exists rs v pk, sig = rs ++ [v] /\ length rs = 64%nat /\
+      recover cr h (rs ++ [v_to01 v]) = Ok pk /\ verify_rs cr pk h rs = true /\ a = addr_of cr pk.
+  Proof.
+    intros (L & v & pk & Hv & R & V & ->).
+    destruct (sig65_split sig v L Hv) as (l1 & -> & H1).
+    rewrite (firstn64_app l1 _ H1) in R, V. exists l1, v, pk. repeat split; assumption.
+  Qed.
+
+  Lemma verify_with_sig b s a :
+    verify_bid K cr (with_sig b s) = Ok a ->
+    exists d, b_dig b = Some d /\ bid_hash K b = Ok d /\ sig_valid cr d s a.
+  Proof.
+    intros H. apply verify_bid_sound in H. destruct H as (d & s' & Hd & Hs & Hh & HS).
+    cbn [b_sig with_sig] in Hs. injection Hs as <-. exists d.
+    split; [exact Hd|]. split; [exact Hh|exact HS].
+  Qed.
+
+  (* (i) the recovery bit: a valid bid with the other bit is refused or names another address *)
+  Theorem flipped_bit_not_same_address b rs v v' a a' :
+    length rs = 64%nat -> v_to01 v = 0 -> v_to01 v' = 1 ->
+    verify_bid K cr (with_sig b (rs ++ [v])) = Ok a ->
+    verify_bid K cr (with_sig b (rs ++ [v'])) = Ok a' -> a' <> a.
+  Proof.
+    intros L E0 E1 V V'.
+    apply verify_with_sig in V. destruct V as (d & Hd & Hh & HS).
+    apply verify_with_sig in V'. destruct V' as (d' & Hd' & Hh' & HS').
+    rewrite Hd in Hd'. injection Hd' as <-.
+    apply sig_valid_split in HS. destruct HS as (rs1 & v1 & pk & E & L1 & R & _ & ->).
+    apply sig_valid_split in HS'. destruct HS' as (rs2 & v2 & pk' & E' & L2 & R' & _ & ->).
+    apply app_inj_tail in E. destruct E as [<- <-]. apply app_inj_tail in E'. destruct E' as [<- <-].
+    rewrite E0 in R. rewrite E1 in R'.
+    intros A. apply addr_inj in A. exact (law_flip d rs pk pk' L R R' (eq_sym A)).
+  Qed.
+
+  (* (ii) s -> n-s: refused outright, whatever recovery byte accompanies it *)
+  Theorem negated_s_refused b rs v v' a :
+    length rs = 64%nat ->
+    verify_bid K cr (with_sig b (rs ++ [v])) = Ok a ->
+    forall a', verify_bid K cr (with_sig b (neg_s rs ++ [v'])) <> Ok a'.
+  Proof.
+    intros L V a' V'.
+    apply verify_with_sig in V. destruct V as (d & Hd & Hh & HS).
+    apply verify_with_sig in V'. destruct V' as (d' & Hd' & Hh' & HS').
+    rewrite Hd in Hd'. injection Hd' as <-.
+    apply sig_valid_split in HS. destruct HS as (rs1 & v1 & pk & E & L1 & _ & Vr & _).
+    apply sig_valid_split in HS'. destruct HS' as (rs2 & v2 & pk' & E' & L2 & _ & Vr' & _).
+    apply app_inj_tail in E. destruct E as [<- <-]. apply app_inj_tail in E'. destruct E' as [<- <-].
+    rewrite (law_low_s pk pk' d rs L Vr) in Vr'. discriminate.
+  Qed.
+
+  (* (iii) digest substitution: other field values, digest recomputed for them, the OLD
+     signature.  It is refused or names another address -- unless the two digests are the same
+     scalar of the group (a digest is reduced modulo n by ECDSA) or the named pre-images collide. *)
+  Theorem digest_substitution b b' a a' d d' :
+    int64_fields b -> int64_fields b' ->
+    verify_bid K cr b = Ok a -> verify_bid K cr b' = Ok a' ->
+    b_sig b' = b_sig b -> b_dig b = Some d -> b_dig b' = Some d' ->
+    ~ same_bid_fields b b' ->
+    a' <> a \/ (d <> d' /\ zn d = zn d') \/ collision_among K (bid_preimage_pairs K b b').
+  Proof.
+    intros I I' V V' ES Hd Hd' NS.
+    destruct (list_eq_dec N.eq_dec d d') as [E|NE].
+    - subst d'. destruct (verify_bid_binding K cr b b' a a' I I' V V') as [S|C];
+        [congruence|contradiction|right; right; exact C].
+    - destruct (Z.eq_dec (zn d) (zn d')) as [EZ|NZ]; [right; left; split; assumption|].
+      left. apply verify_bid_sound in V. destruct V as (d1 & s1 & D1 & S1 & _ & HS).
+      apply verify_bid_sound in V'. destruct V' as (d2 & s2 & D2 & S2 & _ & HS').
+      rewrite Hd in D1. injection D1 as <-. rewrite Hd' in D2. injection D2 as <-.
+      rewrite S1, S2 in ES. injection ES as ->.
+      destruct HS as (_ & v & pk & Hv & R & _ & ->). destruct HS' as (_ & v' & pk' & Hv' & R' & _ & ->).
+      rewrite Hv in Hv'. injection Hv' as <-.
+      intros A. apply addr_inj in A. exact (law_digest d d' _ pk pk' NZ R R' (eq_sym A)).
+  Qed.
+End SigLaws.
+
+(* ------------------------------------------------------------------------------------------- *)
+(* The crypto record of the abstract group: r and s are 32-byte big-endian integers, the point of
+   abscissa r and recovery bit v has logarithm [lift r v] (the two points of one abscissa are
+   opposite), keys are encoded as 32-byte logarithms, the address of a key is the key.  ECDSA
+   verification accepts (r,s) under Q iff s is low and Q is one of the two recoverable keys.
+   The three laws above hold for it. *)
+Section GroupCrypto.
+  Variable n : Z.
+  Hypothesis n_prime : prime n.
+  Hypothesis n_odd : (n mod 2 = 1)%Z.
+  Hypothesis n_small : (n < 2 ^ 256)%Z.
+  Variable rinv_of : Z -> Z.
+  Hypothesis rinv_ok : forall r, (0 < r < n)%Z -> ((r * rinv_of r) mod n = 1)%Z.
+  Variable lift : Z -> N -> option Z.
+  Hypothesis lift_range : forall r v k, lift r v = Some k -> (0 < k < n)%Z.
+  Hypothesis lift_opposite : forall r k k', lift r 0 = Some k -> lift r 1 = Some k' -> (k' = n - k)%Z.
+
+  Definition zof (b : bytes) : Z := Z.of_N (unbe b).
+  Definition enc (q : Z) : bytes := be 32 (Z.to_N q).
+  Definition sig_r (rs : bytes) : Z := zof (firstn 32 rs).
+  Definition sig_s (rs : bytes) : Z := zof (skipn 32 rs).
+  Definition in_range (x : Z) : bool := ((0 <? x) && (x <? n))%Z.
+
+  Definition g_recover (h sig : bytes) : outcome bytes :=
+    let rs := firstn 64 sig in
+    if in_range (sig_r rs) && in_range (sig_s rs) then
+      match nth_error sig 64 with
+      | Some v => match lift (sig_r rs) v with
+                  | Some k => Ok (enc (recovered n (rinv_of (sig_r rs)) (zof h) (sig_s rs) k))
+                  | None => Err 1
+                  end
+      | None => Err 1
+      end
+    else Err 1.
+  Definition recovers (h sig pk : bytes) : bool :=
+    match g_recover h sig with Ok p => bytes_eqb p pk | _ => false end.
+  Definition g_verify (pk h rs : bytes) : bool :=
+    ((2 * sig_s rs <=? n)%Z) && (recovers h (rs ++ [0]) pk || recovers h (rs ++ [1]) pk).
+  Definition g_neg_s (rs : bytes) : bytes := firstn 32 rs ++ be 32 (Z.to_N (n - sig_s rs)).
+  Definition g_zn (d : bytes) : Z := (zof d mod n)%Z.
+
+  Definition group_crypto : crypto :=
+    {| recover := g_recover; verify_rs := g_verify; addr_of := fun p => p; sign := fun _ => Err 0 |}.
+
+  Lemma enc_inj a b : (0 <= a < n)%Z -> (0 <= b < n)%Z -> enc a = enc b -> a = b.
+  Proof.
+    intros Ha Hb H. unfold enc in H. apply be_inj in H.
+    - apply Z2N.inj in H; lia.
+    - change (256 ^ N.of_nat 32) with (Z.to_N (2 ^ 256)%Z). apply Z2N.inj_lt; lia.
+    - change (256 ^ N.of_nat 32) with (Z.to_N (2 ^ 256)%Z). apply Z2N.inj_lt; lia.
+  Qed.
+
+  Lemma recovered_range rinv z s k : (0 <= recovered n rinv z s k < n)%Z.
+  Proof. unfold recovered. apply Z.mod_pos_bound. pose proof (n_gt_2 n n_prime n_odd). lia. Qed.
+
+  Lemma g_recover_inv h rs v pk : length rs = 64%nat ->
+    g_recover h (rs ++ [v]) = Ok pk ->
+    (0 < sig_r rs < n)%Z /\ (0 < sig_s rs < n)%Z /\
+    exists k, lift (sig_r rs) v = Some k /\
+              pk = enc (recovered n (rinv_of (sig_r rs)) (zof h) (sig_s rs) k).
+  Proof.
+    intros L H. unfold g_recover in H. rewrite (firstn64_app rs _ L), (nth_error_64_app rs [] v L) in H.
+    destruct (in_range (sig_r rs) && in_range (sig_s rs)) eqn:R; [|discriminate].
+    apply andb_true_iff in R as [R1 R2]. unfold in_range in R1, R2.
+    apply andb_true_iff in R1 as [R1a R1b]. apply andb_true_iff in R2 as [R2a R2b].
+    apply Z.ltb_lt in R1a, R1b, R2a, R2b.
+    destruct (lift (sig_r rs) v) as [k|] eqn:Lk; [|discriminate]. injection H as <-.
+    repeat split; try assumption. exists k. split; reflexivity.
+  Qed.
+
+  Lemma recovered_opp rinv z s k : recovered n rinv z s (n - k) = recovered n rinv z s (- k).
+  Proof.
+    unfold recovered. pose proof (n_gt_2 n n_prime n_odd).
+    replace (rinv * (s * (n - k) - z))%Z with (rinv * (s * - k - z) + (rinv * s) * n)%Z by ring.
+    apply Z.mod_add. lia.
+  Qed.
+
+  Lemma group_law_flip h rs pk pk' : length rs = 64%nat ->
+    g_recover h (rs ++ [0]) = Ok pk -> g_recover h (rs ++ [1]) = Ok pk' -> pk <> pk'.
+  Proof.
+    intros L R0 R1 E.
+    destruct (g_recover_inv h rs 0 pk L R0) as (Hr & Hs & k & Lk & ->).
+    destruct (g_recover_inv h rs 1 pk' L R1) as (_ & _ & k' & Lk' & ->).
+    pose proof (lift_opposite _ _ _ Lk Lk') as ->. pose proof (lift_range _ _ _ Lk) as Hk.
+    apply enc_inj in E; try apply recovered_range.
+    rewrite recovered_opp in E.
+    exact (flip_bit_changes_key n n_prime n_odd (sig_r rs) (rinv_of (sig_r rs)) (sig_s rs) k (zof h)
+             (rinv_ok _ Hr) Hs Hk (eq_sym E)).
+  Qed.
+
+  Lemma sig_s_neg rs : length rs = 64%nat -> (0 < sig_s rs < n)%Z ->
+    sig_s (g_neg_s rs) = (n - sig_s rs)%Z.
+  Proof.
+    intros L Hs. unfold g_neg_s. unfold sig_s at 1.
+    assert (L32 : length (firstn 32 rs) = 32%nat) by (rewrite firstn_length; lia).
+    replace 32%nat with (length (firstn 32 rs) + 0)%nat at 1 by lia.
+    rewrite skipn_app, Nat.add_comm, Nat.add_sub, skipn_all2 by lia. cbn [skipn app].
+    unfold zof. rewrite unbe_be.
+    - rewrite Z2N.id; lia.
+    - change (256 ^ N.of_nat 32) with (Z.to_N (2 ^ 256)%Z). apply Z2N.inj_lt; lia.
+  Qed.
+
+  Lemma g_neg_s_length rs : length rs = 64%nat -> length (g_neg_s rs) = 64%nat.
+  Proof. intros L. unfold g_neg_s. rewrite app_length, firstn_length, be_length. lia. Qed.
+
+  Lemma group_law_low_s pk pk' h rs : length rs = 64%nat ->
+    g_verify pk h rs = true -> g_verify pk' h (g_neg_s rs) = false.
+  Proof.
+    intros L V. unfold g_verify in V. apply andb_true_iff in V as [Vs Vr]. apply Z.leb_le in Vs.
+    assert (Hs : (0 < sig_s rs < n)%Z).
+    { apply orb_true_iff in Vr. unfold recovers in Vr.
+      destruct Vr as [Vr|Vr];
+        [destruct (g_recover h (rs ++ [0])) as [p| |] eqn:R; try discriminate;
+           exact (proj1 (proj2 (g_recover_inv h rs 0 p L R)))
+        |destruct (g_recover h (rs ++ [1])) as [p| |] eqn:R; try discriminate;
+           exact (proj1 (proj2 (g_recover_inv h rs 1 p L R)))]. }
+    unfold g_verify. rewrite (sig_s_neg rs L Hs).
+    destruct (Z.leb_spec (2 * (n - sig_s rs)) n) as [H|H]; [|reflexivity].
+    exfalso. exact (malleated_not_low_s n n_odd (sig_s rs) Vs H).
+  Qed.
+
+  Lemma group_law_digest d d' sig pk pk' : g_zn d <> g_zn d' ->
+    g_recover d sig = Ok pk -> g_recover d' sig = Ok pk' -> pk <> pk'.
+  Proof.
+    intros NZ R R' E. unfold g_recover in R, R'.
+    destruct (in_range (sig_r (firstn 64 sig)) && in_range (sig_s (firstn 64 sig))) eqn:Rg; [|discriminate].
+    apply andb_true_iff in Rg as [R1 _]. unfold in_range in R1.
+    apply andb_true_iff in R1 as [R1a R1b]. apply Z.ltb_lt in R1a, R1b.
+    destruct (nth_error sig 64) as [v|]; [|discriminate].
+    destruct (lift (sig_r (firstn 64 sig)) v) as [k|]; [|discriminate].
+    injection R as <-. injection R' as <-.
+    apply enc_inj in E; try apply recovered_range.
+    apply NZ. unfold g_zn.
+    exact (digest_changes_key n n_prime n_odd _ _ (zof d) (zof d') _ k (rinv_ok _ (conj R1a R1b)) E).
+  Qed.
+
+  (* the verify_bid-level theorems instantiated: no premise on the crypto record is left *)
+  Theorem group_flipped_bit K b rs v v' a a' :
+    length rs = 64%nat -> v_to01 v = 0 -> v_to01 v' = 1 ->
+    verify_bid K group_crypto (with_sig b (rs ++ [v])) = Ok a ->
+    verify_bid K group_crypto (with_sig b (rs ++ [v'])) = Ok a' -> a' <> a.
+  Proof.
+    apply (flipped_bit_not_same_address K group_crypto group_law_flip (fun p q H => H)).
+  Qed.
+
+  Theorem group_negated_s K b rs v v' a :
+    length rs = 64%nat ->
+    verify_bid K group_crypto (with_sig b (rs ++ [v])) = Ok a ->
+    forall a', verify_bid K group_crypto (with_sig b (g_neg_s rs ++ [v'])) <> Ok a'.
+  Proof. apply (negated_s_refused K group_crypto g_neg_s group_law_low_s). Qed.
+
+  Theorem group_digest_substitution K b b' a a' d d' :
+    int64_fields b -> int64_fields b' ->
+    verify_bid K group_crypto b = Ok a -> verify_bid K group_crypto b' = Ok a' ->
+    b_sig b' = b_sig b -> b_dig b = Some d -> b_dig b' = Some d' ->
+    ~ same_bid_fields b b' ->
+    a' <> a \/ (d <> d' /\ g_zn d = g_zn d') \/ collision_among K (bid_preimage_pairs K b b').
+  Proof. apply (digest_substitution K group_crypto g_zn group_law_digest (fun p q H => H)). Qed.
+End GroupCrypto.
+
+(* non-vacuity of the group instance: n = 7, inverses by Fermat, the point of abscissa r and bit 0
+   has logarithm r.  With the constant hash (digest [], scalar 0) the signature (r,s) = (3,2)
+   verifies with either recovery bit -- to two different keys, as the theorem says -- and its
+   s-negation (3,5) is refused. *)
+Definition rinv7 (r : Z) : Z := ((r ^ 5) mod 7)%Z.
+Definition lift7 (r : Z) (v : N) : option Z :=
+  if ((0 <? r) && (r <? 7))%Z then Some (if (v =? 0)%N then r else (7 - r)%Z) else None.
+Definition crypto7 : crypto := group_crypto 7 rinv7 lift7.
+
+Lemma group7_premises :
+  prime 7 /\ (7 mod 2 = 1)%Z /\ (7 < 2 ^ 256)%Z /\
+  (forall r, (0 < r < 7)%Z -> ((r * rinv7 r) mod 7 = 1)%Z) /\
+  (forall r v k, lift7 r v = Some k -> (0 < k < 7)%Z) /\
+  (forall r k k', lift7 r 0 = Some k -> lift7 r 1 = Some k' -> (k' = 7 - k)%Z).
+Proof.
+  split; [exact prime_7|]. split; [reflexivity|]. split; [reflexivity|]. split; [|split].
+  - intros r Hr. assert (r = 1 \/ r = 2 \/ r = 3 \/ r = 4 \/ r = 5 \/ r = 6)%Z as Hc by lia.
+    destruct Hc as [->|[->|[->|[->|[->| ->]]]]]; reflexivity.
+  - intros r v k. unfold lift7.
+    destruct ((0 <? r) && (r <? 7))%Z eqn:B; [|discriminate].
+    apply andb_true_iff in B as [B1 B2]. apply Z.ltb_lt in B1, B2.
+    destruct (v =? 0)%N; intros E;
+      [assert (r = k) by congruence | assert ((7 - r)%Z = k) by congruence]; lia.
+  - intros r k k'. unfold lift7.
+    destruct ((0 <? r) && (r <? 7))%Z eqn:B; [|discriminate].
+    change (0 =? 0)%N with true. change (1 =? 0)%N with false. cbv iota.
+    intros E E'. assert (r = k) by congruence. assert ((7 - r)%Z = k') by congruence. lia.
+Qed.
+
+Definition sig7 (r s : N) (v : N) : bytes := be 32 r ++ be 32 s ++ [v].
+Definition bid7 (sig : bytes) : bid :=
+  {| b_tx := bos "t"; b_amt := bos "5"; b_bn := 2; b_ds := 10; b_de := 20;
+     b_dig := Some []; b_sig := Some sig |}.
+Example group7_instance :
+  verify_bid Kconst crypto7 (bid7 (sig7 3 2 27)) = Ok (be 32 2) /\
+  verify_bid Kconst crypto7 (bid7 (sig7 3 2 28)) = Ok (be 32 5) /\
+  verify_bid Kconst crypto7 (bid7 (sig7 3 5 27)) = Err E_SIG /\
+  verify_bid Kconst crypto7 (bid7 (sig7 3 5 28)) = Err E_SIG.
+Proof. vm_compute. repeat split. Qed.
+
+(* summaries used by Properties/C02.v *)
+Theorem sig_perturbation_all :
+  forall (K : bytes -> bytes) (cr : crypto) (neg_s : bytes -> bytes) (zn : bytes -> Z),
+  (forall h rs pk pk', length rs = 64%nat ->
+     recover cr h (rs ++ [0]) = Ok pk -> recover cr h (rs ++ [1]) = Ok pk' -> pk <> pk') ->
+  (forall pk pk' h rs, length rs = 64%nat ->
+     verify_rs cr pk h rs = true -> verify_rs cr pk' h (neg_s rs) = false) ->
+  (forall d d' sig pk pk', zn d <> zn d' ->
+     recover cr d sig = Ok pk -> recover cr d' sig = Ok pk' -> pk <> pk') ->
+  (forall p q, addr_of cr p = addr_of cr q -> p = q) ->
+  (forall b rs v v' a a', length rs = 64%nat -> v_to01 v = 0 -> v_to01 v' = 1 ->
+     verify_bid K cr (with_sig b (rs ++ [v])) = Ok a ->
+     verify_bid K cr (with_sig b (rs ++ [v'])) = Ok a' -> a' <> a) /\
+  (forall b rs v v' a, length rs = 64%nat ->
+     verify_bid K cr (with_sig b (rs ++ [v])) = Ok a ->
+     forall a', verify_bid K cr (with_sig b (neg_s rs ++ [v'])) <> Ok a') /\
+  (forall b b' a a' d d', int64_fields b -> int64_fields b' ->
+     verify_bid K cr b = Ok a -> verify_bid K cr b' = Ok a' ->
+     b_sig b' = b_sig b -> b_dig b = Some d -> b_dig b' = Some d' ->
+     ~ same_bid_fields b b' ->
+     a' <> a \/ (d <> d' /\ zn d = zn d') \/ collision_among K (bid_preimage_pairs K b b')).
+Proof.
+  intros K cr neg_s zn L1 L2 L3 AI. split; [|split].
+  - intros b rs v v' a a'. exact (flipped_bit_not_same_address K cr L1 AI b rs v v' a a').
+  - intros b rs v v' a. exact (negated_s_refused K cr neg_s L2 b rs v v' a).
+  - intros b b' a a' d d'. exact (digest_substitution K cr zn L3 AI b b' a a' d d').
+Qed.
+
+Theorem group_perturbation_all : forall (n : Z), prime n -> (n mod 2 = 1)%Z -> (n < 2 ^ 256)%Z ->
+  forall (rinv_of : Z -> Z), (forall r, (0 < r < n)%Z -> ((r * rinv_of r) mod n = 1)%Z) ->
+  forall (lift : Z -> N -> option Z),
+  (forall r v k, lift r v = Some k -> (0 < k < n)%Z) ->
+  (forall r k k', lift r 0 = Some k -> lift r 1 = Some k' -> (k' = n - k)%Z) ->
+  let cr := group_crypto n rinv_of lift in
+  forall (K : bytes -> bytes),
+  (forall b rs v v' a a', length rs = 64%nat -> v_to01 v = 0 -> v_to01 v' = 1 ->
+     verify_bid K cr (with_sig b (rs ++ [v])) = Ok a ->
+     verify_bid K cr (with_sig b (rs ++ [v'])) = Ok a' -> a' <> a) /\
+  (forall b rs v v' a, length rs = 64%nat ->
+     verify_bid K cr (with_sig b (rs ++ [v])) = Ok a ->
+     forall a', verify_bid K cr (with_sig b (g_neg_s n rs ++ [v'])) <> Ok a').
+Proof.
+  intros n Hp Ho Hs rinv_of Hr lift Hl1 Hl2 cr K. split.
+  - intros b rs v v' a a'. eapply group_flipped_bit; eassumption.
+  - intros b rs v v' a. eapply group_negated_s; eassumption.
+Qed.
+
+Theorem malleation_digest_and_s : forall n : Z, prime n -> (n mod 2 = 1)%Z ->
+  forall r rinv : Z, ((r * rinv) mod n = 1)%Z ->
+  (forall z1 z2 s k, recovered n rinv z1 s k = recovered n rinv z2 s k -> (z1 mod n = z2 mod n)%Z) /\
+  (forall z s1 s2 k, (0 < k < n)%Z ->
+     recovered n rinv z s1 k = recovered n rinv z s2 k -> (s1 mod n = s2 mod n)%Z).
+Proof.
+  intros n Hp Ho r rinv Hr. split.
+  - intros z1 z2 s k. exact (digest_changes_key n Hp Ho r rinv z1 z2 s k Hr).
+  - intros z s1 s2 k Hk. exact (s_changes_key n Hp Ho r rinv z s1 s2 k Hr Hk).
 Qed.
